@@ -122,9 +122,20 @@ def run(c):
         stress.append(add_run(text, ids, kinds))
     batches.append({"id": nbatch, "parallel": 16, "runs": stress})
     fk = []
-    for i in range(4):
+    for i in range(6):
         nid[0] += 1
-        fk.append(add_run("task 0 -\ns %d a\n" % nid[0], {nid[0]: ("a", False, 0)}, {0: "main"}, filter_kill=True))
+        # the syscall the filter kills is issued by the main thread, by a second thread while the main one waits, or by a forked child
+        # (whose death by SIGSYS is not the program's); each shape also runs under a control filter that allows the marker syscall
+        shape = i % 3
+        if shape == 0:
+            text, kinds = "task 0 -\ns %d a\n" % nid[0], {0: "main"}
+        elif shape == 1:
+            text, kinds = "task 0 -\nthread 1 -\nwait 0 -\ntask 1 -\ns %d a\n" % nid[0], {0: "main", 1: "thread"}
+        else:
+            text, kinds = "task 0 -\ns %d a\nthread 1 -\nwait 0 -\ntask 1 -\n" % nid[0], {0: "main", 1: "thread"}
+        fk.append(add_run(text, {nid[0]: ("a", False, 0)}, kinds, filter_kill=True))
+        nid[0] += 1
+        fk.append(add_run(text.replace("s %d a" % (nid[0] - 1), "s %d a" % nid[0]), {nid[0]: ("a", False, 0)}, kinds, filter_kill="control"))
     batches.append({"id": nbatch + 1, "parallel": 1, "runs": fk})
     obs = c.run_harness(exe, batches, timeout=1500)
     items, item_src = [], []
@@ -147,6 +158,11 @@ def run(c):
                 cl, nm = a.split()
                 asked[int(nm.split("_")[1])] = cl
             killed = any(ids[i][0] == "k" for i in asked if i in ids)
+            if kw.get("filter_kill") == "control":
+                c.count(text, nontrivial=True, klass="run:filter-control")
+                if ro["status"] != 1 or not any(m.startswith("m_") for m in ro["markers"]):
+                    raise RuntimeError("control run under the killing filter with the marker syscall allowed did not run through: %s" % json.dumps(ro)[:300])
+                continue
             if kw.get("filter_kill"):
                 c.count(text, nontrivial=True, klass="run:filter-kill")
                 if ro["status"] != 5:
